@@ -351,7 +351,7 @@ def machL1 (e : Endian) (ww rw : Nat) (bitReader strict checks : Bool) (cap : Op
     -- the reference writes the *published* codeword (Dsi.Spec) wherever the implemented writer
     -- program accepts the arguments (its panics delimit the domain)
     wcode := fun w code flags p v =>
-      match writeProg e checks code flags p v, Spec.codeword e (if code == "zeta" then "zetaw" else code) p v with
+      match writeProg e checks code flags p v, Spec.codeword e (if code == "zeta" then "zetaw" else if code == "zeta3" then "zetaw3" else code) p v with
       | some prog, some bits =>
         some (match prog.run RefW.impl w with
           | .ok _ => RefW.put w bits bits.length
